@@ -307,6 +307,15 @@ let run_line (line : String.t) : unit =
              (* the spec side of a history is the spec of its declarative final configuration *)
              let h = parse_hist t in
              print_kvs id (run_hist h @ spec_build2 (final_config h))
+         | "helper" ->
+             (* direct calls of the public writer helpers on a caller-supplied buffer *)
+             let one_buf t = (match parse_bufs (next t) 0 with [b] -> b | _ -> failwith "helper: one buffer") in
+             (match next t with
+              | "pad" -> let p = num t in let b = one_buf t in print_kvs id (run_helper_pad p b)
+              | "hdr" -> let pt = num t in let p = num t in let c = num t in let b = one_buf t in
+                         print_kvs id (run_helper_hdr pt p c b)
+              | "chk" -> let p = num t in print_kvs id (run_helper_chk p)
+              | _ -> failwith "bad helper")
          | _ -> Printf.printf "%s\tBADCASE=unknown-kind\n" id)
       with Failure msg -> Printf.printf "%s\tBADCASE=%s\n" id msg)
   | [id] -> Printf.printf "%s\tBADCASE=short\n" id
